@@ -142,10 +142,7 @@ impl Router {
     }
 
     fn on_request(&self, request: Request) -> bool {
-        let server = self
-            .server
-            .read()
-            .unwrap_or_else(PoisonError::into_inner);
+        use std::panic::AssertUnwindSafe;
 
         if request.method == "shutdown" {
             self.respond(Response {
@@ -157,17 +154,52 @@ impl Router {
             return true;
         }
 
+        let id = request.id.clone();
+
+        // a panic below a handler must still produce exactly one (error) response
+        let outcome = panic::catch_unwind(AssertUnwindSafe(|| self.handle_request(request)));
+
+        match outcome {
+            Ok(Ok(value)) => self.respond(Response {
+                id,
+                result: Some(value),
+                error: None,
+            }),
+            Ok(Err((code, message))) => self.respond(Response::new_err(id, code as i32, message)),
+            Err(_) => self.respond(Response::new_err(
+                id,
+                ErrorCode::InternalError as i32,
+                "request handler panicked".to_string(),
+            )),
+        }
+
+        false
+    }
+
+    fn handle_request(&self, request: Request) -> Result<serde_json::Value, (ErrorCode, String)> {
+        let server = self
+            .server
+            .read()
+            .unwrap_or_else(PoisonError::into_inner);
+
+        let internal_error = |_| {
+            (
+                ErrorCode::InternalError,
+                "error handling request".to_string(),
+            )
+        };
+
         if request.method.eq("workspace/executeCommand") {
-            let params = ExecuteCommandParams::deserialize(request.params).unwrap();
+            let params = ExecuteCommandParams::deserialize(request.params).map_err(internal_error)?;
             let result = server.handle_workspace_command(params);
 
             self.send(Message::Request(Request {
                 id: Uuid::new_v4().to_string().into(),
                 method: "workspace/applyEdit".to_string(),
-                params: to_value(result).unwrap(),
+                params: to_value(result).map_err(internal_error)?,
             }));
 
-            return false;
+            return Ok(serde_json::Value::Null);
         }
 
         let response = match request.method.as_str() {
@@ -214,25 +246,13 @@ impl Router {
                 }
             }),
             default => {
-                panic!("unhandled request: {}", default)
+                return Err((
+                    ErrorCode::MethodNotFound,
+                    format!("unhandled request: {}", default),
+                ))
             }
         };
 
-        // schedule update
-
-        match response {
-            Ok(value) => self.respond(Response {
-                id: request.id,
-                result: Some(value),
-                error: None,
-            }),
-            Err(_) => self.respond(Response::new_err(
-                request.id,
-                ErrorCode::InternalError as i32,
-                "error handling request".to_string(),
-            )),
-        }
-
-        false
+        response.map_err(internal_error)
     }
 }
